@@ -90,6 +90,20 @@ def datagram_case(seq, tail):
     return out
 
 
+def long_datagram_case(count):
+    one = [refcodec.enc_someip(0x1000 + (i & 0xFF), i & 0xFFFF, 1, i & 0xFFFF, 1, 0x02, 0, b"") for i in range(count)]
+    p = Rec()
+    addr = ("192.0.2.5", 30501)
+    try:
+        p.datagram_received(b"".join(one), addr, True)
+    except Exception as e:  # noqa: BLE001
+        return [("datagram", f"long-raises-{type(e).__name__}", f"{count} messages in one datagram: {type(e).__name__} after "
+                 f"{len(p.got)} deliveries")]
+    ok = len(p.got) == count and all(g[0].method_id == (i & 0xFFFF) and g[0].service_id == 0x1000 + (i & 0xFF) and g[2] is True
+                                     for i, g in enumerate(p.got))
+    return [] if ok else [("datagram", "long-count-or-order", f"{count} messages in one datagram: {len(p.got)} delivered")]
+
+
 def check(ctx):
     viols = []
     samples = core.Samples()
@@ -139,6 +153,11 @@ def check(ctx):
                 distinct.add(("dg", seq, t))
                 rec(datagram_case(seq, tail), dict(kind="datagram", seq=seq, tail=tail))
     samples.add(dict(kind="datagram", seq=(3, 0, 5), tail=TAILS[2]), "c")
+    # (d) "any number of messages per datagram": as many empty-payload messages as a UDP datagram can hold
+    for count in (255, 256, 1000, 2000, 4094):
+        n += 1
+        distinct.add(("long", count))
+        rec(long_datagram_case(count), dict(kind="long-datagram", count=count))
     cov = dict(
         evaluations=n, distinct_nontrivial=len(distinct), exhaustive=True,
         rule="(a) product of 8 boundary values for each of service/method/client/session x 4 interface versions x "
@@ -155,7 +174,9 @@ def check(ctx):
 
 def replay(ctx, body):
     case = body["case"]
-    if case["kind"] == "datagram":
+    if case["kind"] == "long-datagram":
+        res = long_datagram_case(case["count"])
+    elif case["kind"] == "datagram":
         res = datagram_case(tuple(case["seq"]), case["tail"])
     else:
         f = list(case["fields"])
